@@ -1,5 +1,6 @@
 """Real managers over the scripted stub: trace production and history generation (C01, C07)."""
 import itertools
+import random
 import signal
 
 import compat  # noqa: F401
@@ -90,9 +91,44 @@ class Session:
         self.trace = []
         self.last = None        # last successful output
         self.dead = False       # after a crash/hang the manager state is unknown
+        # a second manager of the same kind in the same process, over another simulation with the same agent ids
+        # and other done times, used in between: the first one must not notice (no state shared between objects)
+        self._init_shadow(kind, script)
+
+    def _init_shadow(self, kind, script):
+        self.shadow = None
+        if script.get("shadow") is not None:
+            self.srng = random.Random(script["shadow"])
+            sc2 = {k: v for k, v in script.items() if k not in ("shadow", "undoneAt")}
+            sc2["doneAt"] = [self.srng.choice([0, 1, 2, 3, NEVER]) for _ in range(script["n"])]
+            sc2["finishAt"] = self.srng.choice([2, 4, NEVER])
+            self.shadow_sim = StubSim(sc2)
+            self.shadow = make_manager(kind, self.shadow_sim, False)
+            self.shadow_live = None
+
+    def _shadow_op(self):
+        sim2 = self.shadow_sim
+
+        def run():
+            if self.shadow_live is None or self.srng.random() < 0.25:
+                out = self.shadow.reset()
+                self.shadow_live = list(out.keys())
+            else:
+                acting = [k for k in self.shadow_live if self.srng.random() < 0.9]
+                _, _, done, _ = self.shadow.step({k: 0 for k in acting})
+                self.shadow_live = None if done.get("__all__") else [k for k, d in done.items()
+                                                                       if k != "__all__" and not d]
+        try:
+            st, _ = guarded(run)
+            if st != "ok":
+                self.shadow_live = None
+        except Exception:  # noqa: BLE001
+            self.shadow_live = None
 
     def apply(self, op):
         sim = self.sim
+        if self.shadow is not None:
+            self._shadow_op()
         log_before, pend_before = len(sim.step_log), list(sim.pend)
         with scripted(self.tape):
             if op[0] == "r":
@@ -208,6 +244,10 @@ def gen_script(rng, max_agents=5, max_t=8):
         k = rng.randint(1, n)
         noms.append(rng.sample(range(n), k))
     sc = {"n": n, "learning": learning, "doneAt": done_at, "finishAt": finish, "noms": noms}
+    if rng.random() < 0.3:
+        sc["npFlags"] = True                  # done flags are numpy.bool_ objects
+    if rng.random() < 0.25:
+        sc["shadow"] = rng.randrange(10 ** 6)  # a second manager is used in between (see Session)
     if rng.random() < 0.2:
         # a "revive": some agents stop being done again a little later (get_done is not monotone)
         sc["undoneAt"] = [d + rng.randint(1, 3) if d < NEVER and rng.random() < 0.6 else 1000000 for d in done_at]
